@@ -1,6 +1,7 @@
 package props
 
 import (
+	"bytes"
 	"fmt"
 	"strings"
 
@@ -118,6 +119,27 @@ func cborDocFamilies(sc docScope, run docBody) []engine.Family {
 			}
 			mkDoc(x, codecCBOR, "cbor-unsupported", cl, doc, model.Unsupported, run)
 		}},
+		{Name: "cbor-break-lengths", Body: func(x *engine.Exec) {
+			// lengths and payload bytes equal to the break byte 0xff inside definite and indefinite containers
+			var doc []byte
+			s255 := append([]byte{0x78, 0xff}, bytes.Repeat([]byte{'s'}, 255)...)
+			b255 := append([]byte{0x58, 0xff}, bytes.Repeat([]byte{0xff}, 255)...)
+			switch x.Choose(6) {
+			case 0:
+				doc = cat2([]byte{0x9f}, s255, []byte{0x18, 0xff, 0xff})
+			case 1:
+				doc = cat2([]byte{0xbf}, s255, b255, []byte{0xff})
+			case 2:
+				doc = cat2([]byte{0x9f}, b255, []byte{0x38, 0xff, 0xff})
+			case 3:
+				doc = append([]byte{0x98, 0xff}, bytes.Repeat([]byte{0x01}, 255)...)
+			case 4:
+				doc = cat2([]byte{0xa1}, s255, []byte{0x19, 0xff, 0xff})
+			default:
+				doc = cat2([]byte{0x82, 0x9f, 0x1a, 0xff, 0xff, 0xff, 0xff, 0xff, 0xfb, 0xff, 0xff, 0xff, 0xff, 0xff, 0xff, 0xff, 0xff})
+			}
+			mkDoc(x, codecCBOR, "cbor-break-lengths", "break-valued-bytes", doc, model.Complete, run)
+		}},
 		{Name: "cbor-deep", Body: func(x *engine.Exec) {
 			n := []int{31, 32, 33, 63, 64, 65, 70}[x.Choose(7)]
 			indef := x.Bool()
@@ -191,6 +213,28 @@ func ubjDocFamilies(sc docScope, run docBody) []engine.Family {
 				doc = cat2([]byte{'[', '['}, inner, []byte{']'}, sib, inner, sib, []byte{']'})
 			}
 			mkDoc(x, codecUBJSON, "ubj-typed-siblings", "typed-then-sibling", doc, model.Complete, run)
+		}},
+		{Name: "ubj-marker-lengths", Body: func(x *engine.Exec) {
+			// strings and keys whose length byte equals a structural marker ('}' = 125, ']' = 93, '#', '$', 'N', ...)
+			lens := []int{125, 93, 91, 123, 35, 36, 78, 90, 84, 83}
+			L := lens[x.Choose(len(lens))]
+			m := []byte{'i', 'U', 'I'}[x.Choose(3)]
+			key := append(gen.UBJLen(m, L), bytes.Repeat([]byte{'k'}, L)...)
+			str := append(append([]byte{'S'}, gen.UBJLen(m, L)...), bytes.Repeat([]byte{'s'}, L)...)
+			var doc []byte
+			switch x.Choose(5) {
+			case 0:
+				doc = cat2([]byte{'{'}, key, []byte{'i', 1, '}'})
+			case 1:
+				doc = cat2([]byte{'{', 'i', 1, 'a', 'T'}, key, str, []byte{'}'})
+			case 2:
+				doc = cat2([]byte{'['}, str, []byte{'i', 2, ']'})
+			case 3:
+				doc = cat2([]byte{'{', '#', 'i', 1}, key, str)
+			default:
+				doc = cat2([]byte{'[', '$', 'S', '#', 'i', 2}, str[1:], str[1:])
+			}
+			mkDoc(x, codecUBJSON, "ubj-marker-lengths", fmt.Sprintf("marker-valued-length:%d", L), doc, model.Complete, run)
 		}},
 		{Name: "ubj-deep", Body: func(x *engine.Exec) {
 			n := []int{31, 32, 33, 40}[x.Choose(4)]
@@ -284,6 +328,20 @@ func jsonDocFamilies(sc docScope, run docBody) []engine.Family {
 				cl = "number:integer-literal"
 			}
 			mkDoc(x, codecJSON, "json-numbers", cl, []byte(doc), model.Complete, run)
+		}},
+		{Name: "json-int-boundaries", Arity: []int{6}, Body: func(x *engine.Exec) {
+			// every integer literal around the 64-bit and 32-bit limits: prefix + one or two more digits
+			prefixes := []string{"1844674407370955161", "1844674407370955162", "922337203685477580", "922337203685477581", "429496729", "214748364"}
+			lit := prefixes[x.Choose(len(prefixes))]
+			lit += string(rune('0' + x.Choose(10)))
+			if k := x.Choose(11); k > 0 {
+				lit += string(rune('0' + k - 1))
+			}
+			if x.Bool() {
+				lit = "-" + lit
+			}
+			ctx := [][2]string{{"", ""}, {"[", "]"}, {`{"a":`, "}"}}[x.Choose(3)]
+			mkDoc(x, codecJSON, "json-int-boundaries", "number:integer-literal", []byte(ctx[0]+lit+ctx[1]), model.Complete, run)
 		}},
 		{Name: "json-whitespace", Arity: []int{len(gen.JSONDocs)}, Body: func(x *engine.Exec) {
 			d := gen.JSONDocs[x.Choose(len(gen.JSONDocs))]
